@@ -27,7 +27,18 @@ import (
 // first element / lower bound.
 var bit = rapid.Bool()
 
-func uni(t *rapid.T, label string, lo, hi int) int {
+// src is where the generator's decisions come from: rapid draws (TestWasiArgs) or the bytes of
+// a native-fuzzing input (FuzzWasiCall, fuzz_test.go).
+type src interface {
+	uni(label string, lo, hi int) int
+	// raw returns an unconstrained value for a hostile argument, if this source offers them
+	raw(label string, is64 bool) (uint64, bool)
+	Fatalf(format string, args ...any)
+}
+
+type rapidSrc struct{ *rapid.T }
+
+func (r rapidSrc) uni(label string, lo, hi int) int {
 	n := hi - lo + 1
 	if n <= 1 {
 		return lo
@@ -36,7 +47,7 @@ func uni(t *rapid.T, label string, lo, hi int) int {
 	for {
 		v := 0
 		for i := 0; i < k; i++ {
-			if bit.Draw(t, label) {
+			if bit.Draw(r.T, label) {
 				v |= 1 << i
 			}
 		}
@@ -46,11 +57,15 @@ func uni(t *rapid.T, label string, lo, hi int) int {
 	}
 }
 
-func chance(t *rapid.T, label string, pct int) bool {
+func (rapidSrc) raw(string, bool) (uint64, bool) { return 0, false }
+
+func uni(t src, label string, lo, hi int) int { return t.uni(label, lo, hi) }
+
+func chance(t src, label string, pct int) bool {
 	return uni(t, label, 0, 99) >= 100-pct
 }
 
-func pick[T any](t *rapid.T, label string, xs []T) T {
+func pick[T any](t src, label string, xs []T) T {
 	return xs[uni(t, label, 0, len(xs)-1)]
 }
 
@@ -125,7 +140,7 @@ var (
 // ---------------------------------------------------------------------------------------
 
 type gen struct {
-	t    *rapid.T
+	t    src
 	w    *world
 	c    *Case
 	fn   *wasiabi.Func
@@ -182,11 +197,17 @@ func (g *gen) piece(off uint32, b []byte) {
 
 func (g *gen) ptrB(what string, need uint64) uint64 {
 	g.nb++
+	if v, ok := g.t.raw(g.l("raw-ptr-"+what), false); ok {
+		return v
+	}
 	return pick(g.t, g.l("ptr-"+what), ptrBoundary(g.size, need))
 }
 
 func (g *gen) lenB(what string, ptr uint64, elem uint32) uint64 {
 	g.nb++
+	if v, ok := g.t.raw(g.l("raw-len-"+what), false); ok {
+		return v
+	}
 	return pick(g.t, g.l("len-"+what), lenBoundary(g.size, uint32(ptr), elem))
 }
 
@@ -235,6 +256,9 @@ func (g *gen) fd(p wasiabi.Param, idx int) uint64 {
 	}
 	if g.hostile("fd") {
 		g.nb++
+		if v, ok := g.t.raw(g.l("raw-fd"), false); ok {
+			return v
+		}
 		if chance(g.t, g.l("fd-open-other-kind"), 30) {
 			if all := g.fdsOfKind(wasiabi.WantAny); len(all) > 0 {
 				return uint64(uint32(pick(g.t, g.l("fd-any"), all)))
@@ -408,7 +432,7 @@ func (g *gen) outPtr(what string, need uint64) uint64 {
 }
 
 // genCall draws the arguments and the memory image of the hostile call.
-func genCall(t *rapid.T, w *world, fn *wasiabi.Func, info map[int32]fdInfo, c *Case) int {
+func genCall(t src, w *world, fn *wasiabi.Func, info map[int32]fdInfo, c *Case) int {
 	g := &gen{t: t, w: w, c: c, fn: fn, info: info, size: w.size, next: 0x100}
 	c.Fill = uint8(uni(t, "fill", 0, 3))
 	args := make([]uint64, len(fn.Params))
@@ -483,6 +507,10 @@ func genCall(t *rapid.T, w *world, fn *wasiabi.Func, info map[int32]fdInfo, c *C
 		case wasiabi.Flags:
 			if g.hostile("flags") {
 				g.nb++
+				if v, ok := t.raw(g.l("raw-flags"), false); ok {
+					args[i] = v
+					continue
+				}
 				args[i] = pick(t, g.l("flags-b"), flagsBoundary(p.Defined))
 			} else if wf := wellFlags[p.Name]; len(wf) > 0 {
 				args[i] = pick(t, g.l("flags"), wf)
@@ -490,6 +518,10 @@ func genCall(t *rapid.T, w *world, fn *wasiabi.Func, info map[int32]fdInfo, c *C
 		case wasiabi.Enum:
 			if g.hostile("enum") {
 				g.nb++
+				if v, ok := t.raw(g.l("raw-enum"), false); ok {
+					args[i] = v
+					continue
+				}
 				args[i] = pick(t, g.l("enum-b"), enumBoundary(p.Max))
 			} else {
 				max := p.Max
@@ -501,6 +533,10 @@ func genCall(t *rapid.T, w *world, fn *wasiabi.Func, info map[int32]fdInfo, c *C
 		case wasiabi.U64:
 			if g.hostile("u64") {
 				g.nb++
+				if v, ok := t.raw(g.l("raw-u64"), true); ok {
+					args[i] = v
+					continue
+				}
 				args[i] = pick(t, g.l("u64-b"), u64Boundary)
 			} else {
 				args[i] = pick(t, g.l("u64"), wellU64[p.Kind])
@@ -508,6 +544,10 @@ func genCall(t *rapid.T, w *world, fn *wasiabi.Func, info map[int32]fdInfo, c *C
 		case wasiabi.U32:
 			if g.hostile("u32") {
 				g.nb++
+				if v, ok := t.raw(g.l("raw-u32"), false); ok {
+					args[i] = v
+					continue
+				}
 				args[i] = pick(t, g.l("u32-b"), u32Boundary)
 			} else {
 				args[i] = uint64(uni(t, g.l("u32"), 0, 3))
@@ -523,7 +563,7 @@ func genCall(t *rapid.T, w *world, fn *wasiabi.Func, info map[int32]fdInfo, c *C
 // ---------------------------------------------------------------------------------------
 // State prefixes.
 
-func genState(t *rapid.T, fn *wasiabi.Func, c *Case) []StateOp {
+func genState(t src, fn *wasiabi.Func, c *Case) []StateOp {
 	if c.Pages == 0 {
 		return nil
 	}
@@ -614,7 +654,8 @@ func errnoClass(e uint32) string {
 	return "errno-other"
 }
 
-func runOne(t *rapid.T, fn *wasiabi.Func) {
+func runOne(rt *rapid.T, fn *wasiabi.Func) {
+	t := rapidSrc{rt}
 	c := &Case{Fn: fn.Name}
 	c.Engine = pick(t, "engine", wz.Engines)
 	c.Pages = pick(t, "pages", []uint32{1, 1, 1, 1, 1, 1, 1, 2, 2, 0})
@@ -635,7 +676,7 @@ func runOne(t *rapid.T, fn *wasiabi.Func) {
 		t.Fatalf("harness: %s", r.Harness)
 	}
 	if r.Msg != "" {
-		evid.Fail(t, c, "%s", r.Msg)
+		evid.Fail(rt, c, "%s", r.Msg)
 	}
 	hasFd := false
 	for _, p := range fn.Params {
